@@ -94,10 +94,11 @@ def cramerv_measure(
         chi2_statistic = measurement.get("chi2_statistic")
 
     # number of observations
-    n_obs = (notna(x) & notna(y)).sum()
+    known = notna(x) & notna(y)
+    n_obs = known.sum()
 
-    # number of values taken by the features
-    n_mod_x, n_mod_y = x.nunique(), y.nunique()
+    # number of values taken by the features (on the rows of the crosstab: where both are known)
+    n_mod_x, n_mod_y = x[known].nunique(), y[known].nunique()
     min_n_mod = min(n_mod_x, n_mod_y)
 
     # Cramér's V
@@ -145,10 +146,11 @@ def tschuprowt_measure(
         chi2_statistic = measurement.get("chi2_statistic")
 
     # number of observations
-    n_obs = (notna(x) & notna(y)).sum()
+    known = notna(x) & notna(y)
+    n_obs = known.sum()
 
-    # number of values taken by the features
-    n_mod_x, n_mod_y = x.nunique(), y.nunique()
+    # number of values taken by the features (on the rows of the crosstab: where both are known)
+    n_mod_x, n_mod_y = x[known].nunique(), y[known].nunique()
 
     # Tschuprow's T
     dof_mods = sqrt((n_mod_x - 1) * (n_mod_y - 1))
